@@ -208,6 +208,21 @@ def oracle(case):
         params[0] = params[0] - 0.125
         labels.append("second-call-after-in-place-edit")
 
+    # an array returned earlier keeps its values when the functions are
+    # called again on other data of the same length
+    if n >= 1:
+        hold_y = armodels.armodel_sim(phi.copy(), arr(e), **kw)
+        hold_r = armodels.armodel_residual(phi.copy(), arr(hold_y), **kw)
+        cy, cr = hold_y.copy(), hold_r.copy()
+        other = np.where(np.isnan(e), 1.0, e * -2.0 + 1.0)
+        armodels.armodel_sim(phi.copy(), other, **kw)
+        armodels.armodel_residual(phi.copy(), other, **kw)
+        if not (np.array_equal(hold_y, cy, equal_nan=True)
+                and np.array_equal(hold_r, cr, equal_nan=True)):
+            raise Violation("an array returned by an earlier call was "
+                            "overwritten by a later call on other data of "
+                            "the same length")
+
     # rejection
     bad = case["bad"]
     x = np.array([0.1, -0.2, 0.3])
